@@ -18,3 +18,17 @@ func saveScriptRaw(r *ev.Run, idx int, sc chain.Script) string {
 	_ = os.WriteFile(p, []byte(monitor.J(sc)), 0o644)
 	return p
 }
+
+// blockMisses reports whether the script marked addr as not having signed the block before height h.
+func blockMisses(cr *chaosRun, h int64, addr string) bool {
+	n := int64(0)
+	for _, st := range cr.Script.Steps {
+		if st.Op == "block" {
+			n++
+			if n == h {
+				return contains(st.Block.Missed, addr)
+			}
+		}
+	}
+	return false
+}
